@@ -9,8 +9,9 @@ for d in sorted(glob.glob(os.path.join(os.path.dirname(os.path.dirname(os.path.a
     first = re.sub(r"^C\d+b? ?/ ?m\d ?[-:–] ?", "", first)[:110]
     det = m["detected_by"]
     missed = "MISSED" in det or "THOROUGH only" in det or "only" in det.split(";")[0]
-    rows.append((os.path.basename(d), first, det[:170], missed))
+    rows.append((os.path.basename(d), first, det[:170], missed, det.startswith("NOT DETECTED")))
 print("| change | what it is | detected by |\n|---|---|---|")
-for n, f, d, _ in rows:
+for n, f, d, _m, _n in rows:
     print("| %s | %s | %s |" % (n, f.replace("|", "/"), d.replace("|", "/")))
-print("\n%d changes; %d needed a strengthening of the machinery first" % (len(rows), sum(1 for r in rows if r[3])))
+print("\n%d changes; %d needed a strengthening of the machinery first; %d are not detected by design (inputs outside the annotated types)"
+      % (len(rows), sum(1 for r in rows if r[3]), sum(1 for r in rows if r[4])))
